@@ -521,7 +521,7 @@ func parseContent(contentMap map[string]any) (Content, error) {
 		return parseImageContent(contentMap)
 	case "audio":
 		return parseAudioContent(contentMap)
-	case "resource", ContentTypeEmbeddedResource:
+	case ContentTypeEmbeddedResource, "embedded_resource":
 		return parseResourceContent(contentMap)
 	default:
 		return nil, fmt.Errorf("unsupported content type: %s", contentType)
